@@ -25,6 +25,7 @@ from .c06 import SMTPD_OBJS
 PROP = "C05"
 TERM = b"\r\n.\r\n"
 QQREC = os.path.join(core.VERIF, "bin", "qq-rec")
+PATIENCE = 10.0      # seconds without any output before lock-step feeding gives up waiting
 
 # trailing commands: (wire verb, expected reply).  Reply codes per RFC 5321 4.2.3 / 4.3.2;
 # "5xx" = any permanent error (the verb is not an SMTP command).
@@ -270,8 +271,10 @@ def run_case(b, home, rec, i, res, attempt=0):
         else:
             # lock step for commands; the DATA stream itself goes in exact chunks and the
             # command after the terminator rides in the same write as the terminator's tail
+            # (if the daemon stops answering, the rest is written without waiting: a correct
+            # daemon still answers everything, a stuck one is judged on the missing replies)
             nrep = 1
-            s.wait_replies(nrep)
+            s.wait_replies(nrep, patience=PATIENCE)
             pend = b""
             alive = True
             for p, role in case["pieces"]:
@@ -279,30 +282,33 @@ def run_case(b, home, rec, i, res, attempt=0):
                     chunks = cut(p, case["style"], rng)
                     pend = chunks.pop() if chunks else b""
                     for c in chunks:
-                        if not s.write(c, sync=True):
+                        if not s.write(c, sync=not s.stalled):
                             alive = False
                             break
                         fed += len(c)
                     if not alive:
                         break
                     continue
-                if not s.write(pend + p, sync=True):
+                if not s.write(pend + p, sync=not s.stalled):
                     alive = False
                     break
                 fed += len(pend) + len(p)
                 nrep += 1 + (1 if pend else 0)
                 pend = b""
-                if not s.wait_replies(nrep):
+                if not s.stalled and not s.wait_replies(nrep, patience=PATIENCE) and not s.stalled:
                     alive = False
                     break
             if pend and alive:
-                s.write(pend, sync=True)
+                s.write(pend, sync=not s.stalled)
                 fed += len(pend)
         rc = s.finish()
+        if s.stalled:
+            res.counters.inc("bin_lockstep_stalls")
     except smtpdrive.Timeout:
         if attempt == 0:
             return run_case(b, home, rec, i, res, attempt=1)
         res.inconclusive.append("C05 bin case %d: watchdog" % i)
+        res.counters.inc("bin_watchdog")
         return
     res.evaluations += 1
     res.counters.inc("bin_sessions")
@@ -439,6 +445,14 @@ def bin_worker(bdir, lo, hi):
     os.makedirs(rec)
     for i in range(lo, hi):
         run_case(b, home, rec, i, res)
+        if res.counters.get("bin_watchdog", 0) >= 3:
+            res.inconclusive.append("C05 bin worker %d..%d gave up at case %d after 3 watchdog expiries" % (lo, hi, i))
+            break
+        if res.counters.get("violations_raw", 0) >= 10 or res.counters.get("bin_lockstep_stalls", 0) >= 2:
+            # the verdict is decided; do not spend the patience of every remaining lock-step session
+            res.counters.inc("bin_workers_stopped_early_after_violations")
+            res.counters.inc("bin_sessions_not_run", hi - i - 1)
+            break
     return res
 
 
@@ -471,6 +485,7 @@ def main(tier):
     res = hrun.run_many(hs, jobs, b.env(), timeout=3000 if tier == "thorough" else 600)
     nsess = core.scaled(6000 if tier == "quick" else 150000)
     bres = core.pmap(bin_worker, [(b.dir, lo, hi) for lo, hi in core.chunks(nsess, core.JOBS * 3)], timeout=3000)
+    del res.samples[5:]
     res.merge(bres)
     res.counters["harness_cases"] = res.counters.pop("cases", 0)
     rule = ("(a) harness: every string over {CR,LF,'.','a','R'} of length <= %d, each with the terminator + a following command "
